@@ -33,6 +33,8 @@ type D struct {
 	// LoadVal, when non-nil, resolves a load of a reassigned local to the value
 	// last stored to it on the current path.
 	LoadVal func(*ssa.UnOp) ssa.Value
+	// FreeVal, when non-nil, gives the constant a captured variable is bound to
+	FreeVal func(*ssa.FreeVar) (string, bool)
 	// AllocAt, when non-nil, gives the value last stored to the whole of a
 	// reassigned struct local before the given load on the path being described
 	// (nil when a field of it was written in between).
@@ -295,6 +297,11 @@ func (d *D) load(x *ssa.UnOp) string {
 	case *ssa.IndexAddr:
 		return d.Of(a)
 	case *ssa.FreeVar:
+		if d.FreeVal != nil {
+			if v, ok := d.FreeVal(a); ok {
+				return v
+			}
+		}
 		// captured variable: when the enclosing function assigns it exactly once
 		// it is that value; otherwise it may be reassigned
 		if b, ok := freeVarBinding(a).(*ssa.Alloc); ok {
